@@ -8,7 +8,7 @@ from pv import common, gen, distgen
 RULE = ("computation graphs of the four models built from generated DCOPs (1-5 variables), harness footprint / "
         "communication-load functions, 1-4 agents with capacities ample / exact fit / too small / mixed, default hosting "
         "cost 0 or not, per-computation hosting costs incl. 0, symmetric routes, with and without must_host / host_with "
-        "hints; each of oneagent, adhoc, heur_comhost, gh_cgdp, ilp_fgdp (factor graphs), ilp_compref, oilp_cgdp called "
+        "hints; each of oneagent, adhoc, heur_comhost, gh_cgdp, ilp_fgdp and ilp_compref_fg (factor graphs), ilp_compref, oilp_cgdp called "
         "through module.distribute(); and the `distribute` command run in-process on a YAML file for dsa/maxsum graphs; "
         "ILP models are solved by PuLP's bundled CBC (GLPK_CMD rebound by the harness: glpsol is not installed); oracle: "
         "outcome is a valid mapping (every computation once, declared agents, must_host honoured by adhoc, cost-0 pins "
@@ -138,14 +138,14 @@ def worker(job):
     for i in range(job["lo"], job["hi"]):
         rng = common.rng_for(seed, "C23", i)
         method = distgen.METHODS[i % len(distgen.METHODS)]
-        use_cli = (i // len(distgen.METHODS)) % 4 == 3
+        use_cli = (i // len(distgen.METHODS)) % 4 == 3 and method != "ilp_compref_fg"  # not offered by the command
         if use_cli:
             algo = rng.choice(["dsa", "maxsum"]) if method != "ilp_fgdp" else "maxsum"
             inst = distgen.gen_instance(rng, graph={"dsa": "constraints_hypergraph", "maxsum": "factor_graph"}[algo])
             P, outcome = cli_run(inst, method, algo)
             api = "cli"
         else:
-            graph = "factor_graph" if method == "ilp_fgdp" else None
+            graph = "factor_graph" if method in ("ilp_fgdp", "ilp_compref_fg") else None
             if method == "adhoc" and rng.random() < 0.5:
                 # adhoc has a dedicated placement for SECP-like models (a factor hosted with one of its variables)
                 inst = distgen.gen_instance(rng, graph="factor_graph", secp_hint_p=0.8)
